@@ -761,6 +761,10 @@ fn run_selector_case(vals: &[i64]) -> Option<(String, String, String)> {
     let mut exp: Vec<(i64, Ac)> = vec![];
     for (i, v) in vals.iter().enumerate() {
         let state = 10 * (i as i64 + 1) + v;
+        if i == 2 {
+            // a notification already in flight when the subscription ends is still compared with the value last delivered
+            Subscriber::<St, Ac>::on_unsubscribe(&sub);
+        }
         sub.on_notify(&state, &(i as Ac));
         if i == 0 || vals[i - 1] != *v {
             exp.push((*v, i as Ac));
@@ -1277,6 +1281,92 @@ fn replay_iter(case: &str) -> Option<String> {
     run_iter_case(n, keep, p, full).map(|(ob, exp, got)| found("iter", &ob, case.to_string(), exp, got))
 }
 
+// ---------------------------------------------------------------- suite `latereg`: components registered at run time from another thread (C07)
+// case: "latereg kind=<r|m|s>"
+fn run_latereg_case(kind: char) -> Option<(String, String, String)> {
+    use std::sync::mpsc;
+    let log: Log = Arc::new(Mutex::new(vec![]));
+    let verdicts = Arc::new(Mutex::new(vec![[V::Continue; 3]; 4]));
+    let remove = Arc::new(Mutex::new(vec![false; 4]));
+    let (gate_tx, gate_rx) = mpsc::channel::<()>();
+    let gate_rx = Mutex::new(gate_rx);
+    let (ent_tx, ent_rx) = mpsc::channel::<()>();
+    let ent_tx = Mutex::new(ent_tx);
+    struct Parking {
+        log: Log,
+        gate: Mutex<mpsc::Receiver<()>>,
+        entered: Mutex<mpsc::Sender<()>>,
+    }
+    impl Reducer<St, Ac> for Parking {
+        fn reduce(&self, state: &St, action: &Ac) -> DispatchOp<St, Ac> {
+            self.log.lock().unwrap().push(Ev::Reduce(0, *state, *action));
+            if *action == 1 {
+                let _ = self.entered.lock().unwrap().send(());
+                let _ = self.gate.lock().unwrap().recv_timeout(Duration::from_secs(10));
+            }
+            DispatchOp::Dispatch(mix(*state, *action, 0), None)
+        }
+    }
+    let store = StoreBuilder::<St, Ac>::new(0)
+        .with_reducer(Box::new(Parking { log: log.clone(), gate: gate_rx, entered: ent_tx }))
+        .with_middleware(Arc::new(Mw { id: 0, verdicts: verdicts.clone(), remove_effect: remove.clone(), log: log.clone() }))
+        .build()
+        .unwrap();
+    let _s0 = store.add_subscriber(Arc::new(Sb { id: 0, log: log.clone() }));
+    store.dispatch(1).unwrap();
+    if ent_rx.recv_timeout(Duration::from_secs(10)).is_err() {
+        return Some(("O-C01-loop-state".into(), "the reducer starts reducing action 1".into(), "it did not within 10 s".into()));
+    }
+    // while action 1 is in its reduce phase, another thread registers a component
+    let st2 = store.clone();
+    let l2 = log.clone();
+    let (v2, r2) = (verdicts.clone(), remove.clone());
+    let h = std::thread::spawn(move || match kind {
+        'r' => st2.add_reducer(Box::new(Rd { id: 1, cfg: RCfg { dispatch: true, effect: 0 }, log: l2 })),
+        'm' => st2.add_middleware(Arc::new(Mw { id: 1, verdicts: v2, remove_effect: r2, log: l2 })),
+        _ => {
+            let _ = st2.add_subscriber(Arc::new(Sb { id: 1, log: l2 }));
+        }
+    });
+    std::thread::sleep(Duration::from_millis(150));
+    let _ = gate_tx.send(());
+    let _ = h.join();
+    // the registration has returned: an action dispatched now must go through the new component
+    store.dispatch(2).unwrap();
+    store.stop();
+    let got = log.lock().unwrap().clone();
+    let hit = match kind {
+        'r' => got.iter().any(|e| matches!(e, Ev::Reduce(1, _, 2))),
+        'm' => got.iter().any(|e| matches!(e, Ev::BR(1, 2, _))) && got.iter().any(|e| matches!(e, Ev::BD(1, 2, _))),
+        _ => got.iter().any(|e| matches!(e, Ev::Notify(1, _, 2))),
+    };
+    if !hit {
+        let (ob, what) = match kind {
+            'r' => ("O-C07-add_reducer-appends", "reducer"),
+            'm' => ("O-C07-add_middleware-appends", "middleware"),
+            _ => ("O-C07-add_subscriber-appends", "subscriber"),
+        };
+        return Some((ob.into(), format!("a {} registered (call returned) before action 2 was dispatched takes part in action 2", what), format!("it was left out: {:?}", got.iter().filter(|e| match e { Ev::Reduce(_, _, a) | Ev::BR(_, a, _) | Ev::Notify(_, _, a) => *a == 2, _ => false }).collect::<Vec<_>>())));
+    }
+    // and the first component still does
+    if !got.iter().any(|e| matches!(e, Ev::Reduce(0, _, 2))) {
+        return Some(("O-C07-add_reducer-appends".into(), "the build-time reducer still takes part in action 2".into(), "it was left out".into()));
+    }
+    None
+}
+fn suite_latereg() -> Option<String> {
+    for kind in ['r', 'm', 's'] {
+        if let Some((ob, exp, got)) = run_latereg_case(kind) {
+            return Some(found("latereg", &ob, format!("latereg kind={}", kind), exp, got));
+        }
+    }
+    None
+}
+fn replay_latereg(case: &str) -> Option<String> {
+    let k = case.split_whitespace().find_map(|t| t.strip_prefix("kind=")).and_then(|v| v.chars().next()).unwrap_or('r');
+    run_latereg_case(k).map(|(ob, exp, got)| found("latereg", &ob, case.to_string(), exp, got))
+}
+
 // ---------------------------------------------------------------- known findings: deterministic demonstrations
 fn finding_c11() -> Option<String> {
     // F-C11-1: effects of actions accepted before stop() are skipped
@@ -1369,6 +1459,7 @@ fn verif_witness() {
                 "twostores" => suite_twostores(),
                 "channeled" => suite_channeled(),
                 "iter" => suite_iter(),
+                "latereg" => suite_latereg(),
                 "finding-c11" => finding_c11(),
                 "finding-c18" => finding_c18(),
                 "finding-c14" => finding_c14(),
@@ -1393,6 +1484,7 @@ fn verif_witness() {
             "twostores" => replay_twostores(case),
             "channeled" => replay_channeled(case),
             "iter" => replay_iter(case),
+            "latereg" => replay_latereg(case),
             "finding-c11" => finding_c11(),
             "finding-c18" => finding_c18(),
             "finding-c14" => finding_c14(),
